@@ -935,6 +935,36 @@ def _limited(fn, seconds=20):
         signal.signal(signal.SIGALRM, old)
 
 
+def probe_mark():
+    """mark_mode: a task object that is executed a second time (bust_cache) carries the outcome of the second execution."""
+    import logging
+    import shutil
+    import tempfile
+    import time
+    from labtech.lab import Lab
+    from lv_probe_types import PLeaf
+    logging.getLogger('labtech').setLevel(logging.CRITICAL)
+    d = tempfile.mkdtemp(prefix='lvprobe_mark')
+    try:
+        t = PLeaf(x=41)
+        lab = Lab(storage=d, runner_backend='serial', notebook=False)
+        lab.run_tasks([t], disable_progress=True, disable_top=True)
+        m1 = t.result_meta
+        time.sleep(0.01)
+        t0 = __import__('datetime').datetime.now()
+        lab.run_tasks([t], bust_cache=True, disable_progress=True, disable_top=True)
+        m2 = t.result_meta
+        if m1 is None or m2 is None or m1.start is None or m2.start is None:
+            return None
+        if m2.start >= t0:
+            return 'MarkAlways'
+        if m2.start == m1.start:
+            return 'MarkIfUnset'
+        return None
+    finally:
+        shutil.rmtree(d, ignore_errors=True)
+
+
 def probe_view():
     """view_mode: under the fork backend, does a worker forked after the in-memory results have been empty once still see the
     results of its dependencies?  (One worker; an independent task finishes first and its result is released at once.)"""
@@ -994,6 +1024,7 @@ def all_probes():
     out['snap'] = _limited(probe_snapshot)
     out['launch'] = _limited(probe_launch)
     out['view'] = _limited(probe_view)
+    out['mark'] = _limited(probe_mark)
     out['scope'] = _limited(probe_scope)
     out.update(_limited(probe_storage) or {})
     r = _limited(probe_cache) or (None, None)
